@@ -5,8 +5,8 @@ from . import common as C, l3, l4
 
 SIZES = [0, 1, 7, 4095, 4096, 4097, 12288, 12289, 50000]
 MTIMES = [0, 1, 999_999_999, 1_000_000_000, 1_600_000_000_123_456_789, 1_700_000_000_000_000_001, 2 ** 33 * 10 ** 9 + 5, 4_000_000_000_987_654_321]
-NAMES = ['a', 'b', 'c', 'd.txt', 'e', 'é', 'sp ace', 'L1', 'L2', 'keep.tmp']
-FILTER_SETS = [[], [], [], ['-.*\\.txt'], ['-b'], ['+a(/.*)?', '+c(/.*)?'], ['-.*/c'], ['+.*', '-.*\\.tmp'], ['-é', '-sp ace'], ['-a/.*'], ['-a', '+a/b']]
+NAMES = ['a', 'b', 'c', 'd.txt', 'e', 'é', 'sp ace', 'L1', 'L2', 'keep.tmp', 'new\nline.txt', 'x\ny']
+FILTER_SETS = [[], [], [], ['-.*\\.txt'], ['-.*\\.txt'], ['-.*y'], ['-b'], ['+a(/.*)?', '+c(/.*)?'], ['-.*/c'], ['+.*', '-.*\\.tmp'], ['-é', '-sp ace'], ['-a/.*'], ['-a', '+a/b']]
 
 
 def link_targets(base, decoys=True):
